@@ -751,6 +751,7 @@ class PipelineAnalysis:
                                           if f['d'][2:] not in wl.b_written and A.prog.type(f['t']).get('k') != 'array') + tuple(A.heap_fields.values())
             self.check_cursor()
         self.check_unpad()
+        self.check_round_robin()
         # --- io-side object invariant of a buffer (joined over construction and every hand-over), by iteration
         self.io_inv = {}
         ctor0 = self.ctor_state()
@@ -891,6 +892,68 @@ def _check_cursor(self):
 
 
 PipelineAnalysis.check_cursor = _check_cursor
+
+
+def _check_round_robin(self):
+    """R02.r: chunks are dealt to the slots in turn: with every slot still in use (no token INV), one call of the function that
+    moves the turn takes it from slot t to slot (t+1) mod T and reports success, for every T in 1..16 and every t < T
+    (concrete evaluation of the real function on the real controller objects)."""
+    A, rec = self.A, self.rec
+    prog = A.prog
+    turnf = A.Gq + '::turn'
+    movers = []
+    for m_ in A.G['methods']:
+        g = prog.functions.get(m_['id'])
+        if g is None or g.get('body') is None or g.get('ctor'):
+            continue
+        for n in walk(g['body']):
+            if ((n['k'] == 'BinaryOperator' and n.get('op') == '=') or n['k'] == 'CompoundAssignOperator' or (n['k'] == 'UnaryOperator' and n.get('op') in ('++', '--'))):
+                tgt = strip(n.get('lhs') or n.get('e') or {})
+                if tgt.get('k') == 'MemberExpr' and tgt.get('d', '')[2:] == turnf:
+                    movers.append(g)
+                    break
+    movers = [g for g in movers if not g['params']]
+    key = 'R02.r@%s::turn-advances-round-robin' % A.Gq
+    if len(movers) != 1:
+        rec.ob('R02.r', key, None, A.G['file'], 'the function that moves the turn was not identified (%d parameterless candidates)' % len(movers))
+        return
+    f = movers[0]
+    where = '%s:%s' % (f['file'], f['line'])
+    E = A.enum
+    bad = []
+    n = 0
+    for T in range(1, 17):
+        for t in range(T):
+            st = initial_state(A, 'io', True)
+            st.sym[TSYM] = (T, T)
+            st.mem[(BG, (A.Gq + '::size',))] = C(T)
+            st.mem[(BG, (turnf,))] = C(t)
+            if A.live:
+                st.mem[(A.live, ())] = C(T)
+            for i in range(T):
+                if A.split:
+                    st.mem[(SLOTS, (i, A.split['ctrl'], A.state))] = C(E['READY'])
+                else:
+                    st.mem[(CTRL, (i, A.state))] = C(E['READY'])
+            I = interp.Interp(prog, models=dict(models.STD_MODELS))
+            I.heap_fields = A.heap_fields
+            I.split_fields = split_hook(A)
+            I.concrete_loops = True
+            res = I.run(f, st, this=P(BG, ()))
+            n += 1
+            want = (t + 1) % T
+            for s2, v in res:
+                got = s2.mem.get((BG, (turnf,)))
+                if got != C(want) or not (is_int(v) and compare('!=', v, C(0), s2.sym) is True):
+                    bad.append((T, t, show(got) if got else '?', show(v)))
+            if not res:
+                bad.append((T, t, 'no result', ''))
+    rec.ob('R02.r', key, not bad, where,
+           '%d (T, turn) pairs: %s' % (n, 'the turn goes to (turn+1) mod T and the function reports success' if not bad else
+                                      'NO: with T=%d and turn=%d the turn becomes %s (result %s); expected %d' % (bad[0][0], bad[0][1], bad[0][2], bad[0][3], (bad[0][1] + 1) % bad[0][0])))
+
+
+PipelineAnalysis.check_round_robin = _check_round_robin
 
 
 def _ctor_state(self):
